@@ -98,7 +98,9 @@ var c18Table = map[string]c18Method{
 	// database administration
 	"schema/CreateDatabase": {need: lvAdmin, on: "any"}, "schema/CreateDatabaseWith": {need: lvAdmin, on: "any"}, "schema/CreateDatabaseV2": {need: lvAdmin, on: "any"},
 	"schema/LoadDatabase": {need: lvAdmin, on: "any"}, "schema/UnloadDatabase": {need: lvAdmin, on: "any"}, "schema/DeleteDatabase": {need: lvAdmin, on: "any"},
-	"schema/UpdateDatabase": {need: lvAdmin, on: "any"}, "schema/UpdateDatabaseV2": {need: lvAdmin, on: "any"},
+	// changing the settings of a database is an administrative operation on *that* database:
+	// the admin right must be held on the database named in the request (dbtmp: only the sysadmin)
+	"schema/UpdateDatabase": {need: lvAdmin, on: "named:dbtmp"}, "schema/UpdateDatabaseV2": {need: lvAdmin, on: "named:dbtmp"},
 	"schema/FlushIndex": {need: lvAdmin}, "schema/CompactIndex": {need: lvAdmin}, "schema/TruncateDatabase": {need: lvAdmin, on: "target"},
 }
 
@@ -818,6 +820,8 @@ func (e *c18Env) cell(u c18User, sel, kind, state string) string {
 				}
 			case "target":
 				eff = u.level(target)
+			case "named:dbtmp":
+				eff = u.level("dbtmp")
 			case "any":
 				for _, db := range []string{"db1", "db2"} {
 					if l := u.level(db); l > eff {
